@@ -227,7 +227,7 @@ func c13Units(tier string) []*Unit {
 			return out
 		}})
 	}
-	us = append(us, c13IncludeInternalUnit())
+	us = append(us, c13IncludeInternalUnit(), c13InternalByOtherNamesUnit())
 	us = append(us, c13PreconditionStateUnits()...)
 	sort.SliceStable(us, func(i, j int) bool { return us[i].Name < us[j].Name })
 	return us
@@ -236,6 +236,65 @@ func c13Units(tier string) []*Unit {
 // tasks that are internal because the include that brings them in says so: every combination of
 // the include's internal / flatten options and of the task's own internal flag, named on the
 // command line (202, nothing runs) and reached through deps (runs)
+// An internal task stays uncallable from the command line whatever name is used for it: an alias,
+// an alias of its include's namespace, a name matching its wildcard pattern.
+func c13InternalByOtherNamesUnit() *Unit {
+	name := "internal-named-by-alias-or-wildcard"
+	return &Unit{Name: name, Weight: 1, Custom: func(u *Unit, dir string, deadline time.Time) *vlab.UnitResult {
+		res := &vlab.UnitResult{SigCounts: map[string]int{}, Extra: map[string]any{}}
+		files := map[string]string{
+			"Taskfile.yml": "version: '3'\nincludes:\n  inc:\n    taskfile: ./inc.yml\n    internal: true\n    aliases: [i]\n  pub:\n    taskfile: ./pub.yml\n    aliases: [p]\ntasks:\n  hidden:\n    internal: true\n    aliases: [hd]\n    cmds:\n      - echo ran-hidden\n  'gen-*':\n    internal: true\n    cmds:\n      - echo ran-gen-{{index .MATCH 0}}\n  open:\n    aliases: [op]\n    cmds:\n      - echo ran-open\n",
+			"inc.yml":      "version: '3'\ntasks:\n  default:\n    cmds:\n      - echo ran-inc-default\n  t:\n    aliases: [tt]\n    cmds:\n      - echo ran-inc-t\n",
+			"pub.yml":      "version: '3'\ntasks:\n  t:\n    aliases: [tt]\n    cmds:\n      - echo ran-pub-t\n  secret:\n    internal: true\n    aliases: [sc]\n    cmds:\n      - echo ran-pub-secret\n",
+		}
+		os.RemoveAll(dir)
+		os.MkdirAll(dir, 0o755)
+		for rel, c := range files {
+			os.WriteFile(filepath.Join(dir, rel), []byte(c), 0o644)
+		}
+		n := 0
+		var samples []any
+		for _, c := range []struct {
+			req      string
+			internal bool
+			ran      string
+		}{
+			{"hidden", true, ""}, {"hd", true, ""}, {":hd", true, ""}, {"gen-x", true, ""}, {"open", false, "ran-open"}, {"op", false, "ran-open"},
+			{"inc:t", true, ""}, {"inc:tt", true, ""}, {"i:t", true, ""}, {"i:tt", true, ""}, {"inc", true, ""}, {"i", true, ""},
+			{"pub:t", false, "ran-pub-t"}, {"p:tt", false, "ran-pub-t"}, {"pub:secret", true, ""}, {"pub:sc", true, ""}, {"p:sc", true, ""},
+		} {
+			so, se, rc := RunCLI(dir, nil, "", "--silent", c.req)
+			n++
+			if len(samples) < 3 {
+				samples = append(samples, map[string]any{"request": c.req, "status": rc, "stdout": strings.TrimSpace(so)})
+			}
+			var v *vlab.Violation
+			switch {
+			case c.internal && strings.Contains(so, "ran-"):
+				x := vlab.V("C13", "guarded_task_ran", "internal:by_other_name", fmt.Sprintf("request %q reached an internal task and ran %q", c.req, strings.TrimSpace(so)))
+				v = &x
+			case c.internal && rc != 202:
+				x := vlab.V("C13", "status_class", fmt.Sprintf("internal:by_other_name:got%d:want202", rc), fmt.Sprintf("request %q: status %d (%s), documented class 202", c.req, rc, firstN(se, 100)))
+				v = &x
+			case !c.internal && (rc != 0 || strings.TrimSpace(so) != c.ran):
+				x := vlab.V("C13", "spurious_block", "internal:by_other_name", fmt.Sprintf("request %q names a task that is not internal: status %d stdout %q (%s)", c.req, rc, so, firstN(se, 100)))
+				v = &x
+			}
+			if v != nil {
+				v.Scenario = name
+				v.Input = map[string]any{"files": files, "request": c.req}
+				res.SigCounts[v.Sig]++
+				if res.SigCounts[v.Sig] == 1 {
+					res.Violations = append(res.Violations, *v)
+				}
+			}
+		}
+		res.Extra["samples"] = samples
+		res.Stats = vlab.Stats{Scenario: name, Execs: n, States: n, Transitions: n, Outcomes: 2, Exhaustive: true}
+		return res
+	}}
+}
+
 func c13IncludeInternalUnit() *Unit {
 	name := "internal-through-include-options"
 	return &Unit{Name: name, Weight: 1, Custom: func(u *Unit, dir string, deadline time.Time) *vlab.UnitResult {
